@@ -10,7 +10,6 @@ from the docstring's definition (sum_i c_i|b_i>, dense vector with padding, the 
 applies the emitted gates to |0..0> exactly and decides equality (exact, or up to a global phase where the docstring says
 so) including 'every auxiliary wire is |0>'.  Decompositions with off-lattice angles are evaluated by the float bridge and
 the state prepared by default.qubit (device primitive path) is compared with the exact state TLC printed, at 1e-7."""
-import itertools
 import json
 import math
 import random
